@@ -12,7 +12,7 @@ def mk(n, timeout=900, solver=None, config=(), tag="", real_matcher=False, menu=
           "strnpbrk.0": 6, "strnpbrk.1": n + 5, "memmove.0": n + 5, "memmove.1": n + 5, "memcpy.0": n + 2, "strlen.0": 10, "strnlen.0": n + 2,
           "strncasecmp.0": 10, "eq.0": 8, "handler.0": n + 5, "matchCommand.0": 9, "matchCommand.1": n + 5, "ref_lookup.0": 9, "r_header.0": n + 2, "r_mnemonic.0": n + 2, "skipProgramMnemonic.0": n + 2,
           "skipCompoundProgramHeader.0": n + 2, "composeCompoundCommand.0": n + 5, "patternSeparatorShortPos.0": 8, "compareStrAndNum.0": 4}
-    for k in range(13):
+    for k in range(20):
         us["harness.%d" % k] = n + 5
     # everything else (the do{}while(0) macros and the keyword loops of matchCommand: at most 3 keywords + 1) gets 6
     if menu:
@@ -28,10 +28,83 @@ def mk(n, timeout=900, solver=None, config=(), tag="", real_matcher=False, menu=
                             table="0 A:B | 1 A:C | 2 A[:B]:C | 3 C | 4 *C | 5 A:B? | 6 B | 7 C?", config=" ".join(config) or "default"))
 
 
+UNIT_FORMS = ["#", "#:#", ":#", ":#:#", "*#", "#?", "#:#?", "#:#:#"]
+
+
+def shaped(units, timeout=600):
+    """units: list of unit forms; '#' = symbolic letter of {A,B,C}"""
+    text = ";".join(units) + "\\n"
+    n = len(";".join(units)) + 1
+    c = mk(n, timeout, None, (), "")
+    c.name = "shape-" + ";".join(units).replace("#", "x").replace("*", "s").replace("?", "q").replace(":", ".").replace(";", "_")
+    c.defs = ["-DN=%d" % n, '-DSHAPE="%s"' % text, "-DUNITS=%d" % len(units)]
+    c.optional_witness = ["WITNESS compound-path-applied", "WITNESS defined-and-undefined"]
+    c.mem_est = 3
+    c.bounds = dict(message="every message of the shape %s LF with each # a letter of {A B C}" % ";".join(units), table=c.bounds["table"], config="default")
+    return c
+
+
+SPELL = ["A:B", "A:C", ":A:B", "*C", "C", "B", "C?", "A:B:C", ":C", "A:B?"]
+
+
+def tmpl(units, timeout=300):
+    """concrete message text, symbolic acceptance relation of the command table"""
+    text = ";".join(units)
+    n = len(text) + 1
+    c = mk(n, timeout, None, (), "")
+    c.name = "tmpl-" + text.replace("*", "s").replace("?", "q").replace(":", ".").replace(";", "_")
+    c.defs = ["-DN=%d" % n, '-DTMPL="%s\\n"' % text, "-DUNITS=%d" % len(units)]
+    c.optional_witness = ["WITNESS compound-path-applied", "WITNESS defined-and-undefined"]
+    c.mem_est = 2
+    c.unwindset = dict(c.unwindset)
+    c.unwindset.update({"tm_key.0": n + 5, "tm_key.1": n + 5})
+    c.stubs = [x for x in c.stubs if not x.startswith("matchCommand")] + ["matchCommand replaced by a SYMBOLIC acceptance relation: an arbitrary function from (effective header text, table entry) to accept/refuse (pattern acceptance is C03)"]
+    c.bounds = dict(message="the concrete message %s LF" % text, table="every acceptance relation of an 8-entry table over the message's effective headers (2^(8 x distinct headers) tables)", config="default")
+    return c
+
+
+def tmpl_cases(tier):
+    cs = []
+    for a in SPELL:
+        for b in SPELL:
+            cs.append(tmpl([a, b]))
+    firsts = ("A:B", "A:B:C", ":A:B") if tier == "quick" else SPELL
+    lasts = ("B", "C", "A:C", ":C") if tier == "quick" else SPELL
+    for a in firsts:
+        for m in SPELL:
+            for z in lasts:
+                cs.append(tmpl([a, m, z]))
+    if tier != "quick":
+        for a in ("A:B", "A:B:C"):
+            for m1 in ("*C", "B", "A:C", ":C", "C?"):
+                for m2 in ("*C", "B", "A:C", ":C", "C?"):
+                    for z in ("B", "A:C"):
+                        cs.append(tmpl([a, m1, m2, z]))
+    return cs
+
+
+def shaped_cases(tier):
+    cs = []
+    # all two-unit shapes, and three-unit shapes around every middle unit form
+    for a in UNIT_FORMS:
+        for b in UNIT_FORMS:
+            cs.append(shaped([a, b]))
+    for a in ("#:#", "#:#:#"):
+        for m in UNIT_FORMS:
+            for z in ("#", "#:#"):
+                cs.append(shaped([a, m, z]))
+    if tier != "quick":
+        for a in ("#:#", ":#:#"):
+            for m1 in ("*#", "#", "#:#", ":#"):
+                for m2 in ("*#", "#", "#:#", ":#"):
+                    cs.append(shaped([a, m1, m2, "#"], 1500))
+    return cs
+
+
 def cases(tier):
     if tier == "quick":
-        return [mk(6), mk(5, 900, None, ["-DUSE_DEVICE_DEPENDENT_ERROR_INFORMATION=0"], "-noinfo")]
-    return [mk(8, 9000, "cadical"), mk(9, 12000, "cadical"), mk(7, 6000, None, ["-DUSE_DEVICE_DEPENDENT_ERROR_INFORMATION=0"], "-noinfo")]
+        return [mk(6), mk(5, 900, None, ["-DUSE_DEVICE_DEPENDENT_ERROR_INFORMATION=0"], "-noinfo")] + tmpl_cases(tier)
+    return tmpl_cases(tier) + [mk(8, 9000, "cadical"), mk(9, 12000, "cadical"), mk(7, 6000, None, ["-DUSE_DEVICE_DEPENDENT_ERROR_INFORMATION=0"], "-noinfo")]
 
 
 META = dict(
